@@ -2,7 +2,8 @@
 I: /proc/stat contents (1-3 CPUs x 7-10 fields x boundary counters); all snapshot pairs whose per-field
 deltas come from a small set (complete 3-valued product + every pair of fields over 6 values) through
 cpu_percent()/cpu_times_percent() in blocking and non-blocking, system-wide and per-CPU forms;
-Process.cpu_percent over (dproc, dwall) grids and blocking/non-blocking call sequences."""
+Process.cpu_percent over (dproc, dwall) grids and call sequences over {non-blocking, blocking, inside a oneshot() block left
+normally, inside a oneshot() block left by an exception}."""
 import itertools
 
 from vf.harness import use_world, outcome, freeze, sample, guarded, add_histories, history_of
@@ -121,6 +122,10 @@ def check_pair(psutil, w, rows1, rows2, nf, form, blocking, viols, case):
                         viols.append(("cpu_times_percent:sum:%s" % sub, "shares sum to %r (deltas %r)" % (s, d)))
 
 
+class _AppError(Exception):
+    pass
+
+
 def _others(p, i):
     """CPU time of reaped children and block-I/O wait also move between two calls: they are not the process's own CPU time"""
     p.stat["cutime"] += 37 * (i + 1)
@@ -151,7 +156,7 @@ def run_case(case, w):
                  for c, r in enumerate(rows1)]
         check_pair(psutil, w, rows1, rows2, nf, form, blocking, viols, case)
     elif k == "proc":
-        seq = case[1]           # list of (kind 'n'|'b', dproc_ticks_user, dproc_ticks_sys, dwall_s)
+        seq = case[1]           # list of (kind 'n'|'b'|'o'|'e'|'x', dproc_ticks_user, dproc_ticks_sys, dwall_s)
         ncpu = case[2]
         w.ncpus = ncpu
         w.cpu_times = None
@@ -184,12 +189,24 @@ def run_case(case, w):
                 if not (got[0] == "exc" and got[1] == "AccessDenied"):
                     viols.append(("Process.cpu_percent:denied-call", repr(got)))
                 continue
-            if kind == "n":
+            if kind in ("n", "o", "e"):
                 w.mono += dw
                 p.stat["utime"] += du
                 p.stat["stime"] += ds
                 _others(p, i)
-                got = outcome(pr.cpu_percent, None)
+                if kind == "n":
+                    got = outcome(pr.cpu_percent, None)
+                else:
+                    # the same question asked inside a `with oneshot():` block, which the application leaves normally ('o')
+                    # or through an exception of its own ('e'): either way the block is over afterwards and later calls
+                    # measure the kernel's current counters
+                    try:
+                        with pr.oneshot():
+                            got = outcome(pr.cpu_percent, None)
+                            if kind == "e":
+                                raise _AppError("application code failed inside the block")
+                    except _AppError:
+                        pass
                 if prev is None:
                     exp = 0.0
                 else:
@@ -376,7 +393,7 @@ def build_cases(thorough):
         for gs in ((grid[1], grid[2], grid[3]), (grid[3], grid[4], grid[1])):
             cases.append(("proc", [("n",) + gs[0], ("x",) + gs[1], ("n",) + gs[2]], ncpu))
             cases.append(("proc", [("b",) + gs[0], ("x",) + gs[1], ("n",) + gs[2], ("n",) + gs[0]], ncpu))
-    kinds = ["n", "b"]
+    kinds = ["n", "b", "o", "e"]
     for ncpu in (1, 16):
         for ks in itertools.product(kinds, repeat=3):
             for gs in itertools.product(grid, repeat=3) if thorough else [(grid[1], grid[2], grid[3]), (grid[0], grid[4], grid[1]), (grid[3], grid[0], grid[2])]:
